@@ -92,6 +92,7 @@ theorem convertHeader_eq_sigEntry (isReq : Bool) (h : Hdr) (hk : KF.C05.nameCase
   unfold KF.C05.nameCaseOf at hk
   simp only [Bool.or_eq_false_iff, Bool.and_eq_false_iff] at hk
   unfold convertHeader sigEntry
+  rw [← optionalList_eq, ← skipValueList_eq] at hk ⊢
   cases h1 : inList (optionalList isReq) h.name with
   | true => simp [inList_imp_ciMem _ _ h1]
   | false =>
@@ -112,6 +113,7 @@ theorem convertHeader_eq_sigEntry (isReq : Bool) (h : Hdr) (hk : KF.C05.nameCase
 
 theorem absentHeaders_eq (isReq : Bool) (hs : List Hdr) : absentHeaders isReq hs = absentOf isReq hs := by
   unfold absentHeaders absentOf
+  rw [← commonList_eq]
   simp only []
   have : ∀ c : String, (!(hs.map (fun h => lower h.name)).contains (lower (ascii c))) =
       (!hs.any (fun h => ciEq h.name c)) := by
